@@ -15,6 +15,7 @@ import (
 	"encoding/json"
 	"fmt"
 	"os"
+	"path/filepath"
 	"runtime/debug"
 	"sort"
 	"strconv"
@@ -139,6 +140,11 @@ func handle(req J) J {
 	switch str(req, "op") {
 	case "ping":
 		return J{"pong": true}
+	case "chdir":
+		if err := os.Chdir(str(req, "dir")); err != nil {
+			return J{"err": err.Error()}
+		}
+		return J{"ok": true}
 	case "chunks":
 		r, err := token.NewChunker().Chunks(str(req, "s"))
 		if err != nil {
@@ -179,6 +185,27 @@ func handle(req J) J {
 		return opVersion(req)
 	case "build":
 		return opBuild(req)
+	case "glob":
+		m, err := filepath.Glob(str(req, "pattern"))
+		if err != nil {
+			return J{"err": err.Error()}
+		}
+		if m == nil {
+			m = []string{}
+		}
+		return J{"ok": m}
+	case "clean":
+		return J{"ok": filepath.Clean(str(req, "s"))}
+	case "readfile":
+		buff, err := os.ReadFile(str(req, "path"))
+		if err != nil {
+			return J{"errs": errList(grouperror.Prefix("could not read the file: ", err))}
+		}
+		var tmp input.Input
+		if err := yaml.Unmarshal(buff, &tmp); err != nil {
+			return J{"errs": errList(grouperror.Prefix("parsing yaml: ", err))}
+		}
+		return J{"ok": inputJSON(tmp)}
 	}
 	return J{"badop": str(req, "op")}
 }
